@@ -368,7 +368,7 @@ func c08Sealed(c *Ctx, k *core, ifaceName string, f *ssa.Function) {
 			return it.NumMethods() > 0
 		}
 		if has(t) || has(types.NewPointer(t)) {
-			impls["."+tn.Name()] = true
+			impls["."+tname(tn)] = true
 		}
 	}
 	cases := map[string]bool{}
